@@ -432,6 +432,7 @@ func c12Unsupported() []c12Val {
 }
 
 func runC12(c *ev.Ctx) {
+	defer sizeSweep(c, "C12")
 	entries := c12Entries()
 	var vals []c12Val
 	addv := func(in interface{}, w *spec.V, cl string) { vals = append(vals, c12Val{In: in, Want: w, Class: cl}) }
